@@ -60,14 +60,14 @@ def check(ctx, tier, seed, t0):
     sites = {}
     try:
         hxa = build_align(ctx)
-        for off in ((1, 2, 3, 5) if tier == 'quick' else range(1, 8)):
+        for off in ((0, 1, 2, 3, 5) if tier == 'quick' else range(0, 8)):      # 0 too: a typed access may need MORE than the PDU's own 16-byte placement offers at an inner offset
             out = vlib.run_harness(ctx, cmds, env_extra={'HX_OFFSET': str(off)}, exe=hxa)
             for c, o in zip(cmds, out):
                 if o.startswith('CRASH') and 'misaligned' in o:
                     site = o.split()[-1]
                     if site not in sites:
                         sites[site] = (c, off, o)
-        dist['alignment_sanitizer_runs'] = len(cmds) * (4 if tier == 'quick' else 7)
+        dist['alignment_sanitizer_runs'] = len(cmds) * (5 if tier == 'quick' else 8)
     except Exception as e:
         proof['broken'].append({'file': 'alignment-instrumented harness build', 'line': 0, 'error': str(e)[:400]})
     for site, (c, off, o) in sorted(sites.items()):
@@ -108,7 +108,7 @@ def check(ctx, tier, seed, t0):
     total = nplace + dist.get('alignment_sanitizer_runs', 0) + 1
     streams = stream_summary(total, total,
         'the command sample of C14 (every operation family of C01-C12) executed with the PDU placed 0..7 bytes behind a 16-byte boundary (quick: 0,1,2,3,4,7) on plain builds at '
-        'gcc -O0, gcc -O2, clang -O3 (thorough: gcc and clang x -O0..-O3): every output must equal the output at offset 0 of the first build; the same sample at offsets 1..7 on a '
+        'gcc -O0, gcc -O2, clang -O3 (thorough: gcc and clang x -O0..-O3): every output must equal the output at offset 0 of the first build; the same sample at offsets 0..7 on a '
         '-fsanitize=alignment build: every reported misaligned access is a violation with its source line; the regenerated inventory of alignment-raising pointer casts must be empty. '
         'non-trivial = distinct command x placement x build',
         [{'site': k, 'cmd': v[0][:100], 'offset': v[1]} for k, v in list(sites.items())[:6]],
